@@ -18,6 +18,13 @@ from .dagspec import VarName, VARNAME, Id, ID
 from .c08 import Expr, EXPR, NameSet, NAMESET, union, subset, empty, single, vars_
 from .astspec import Node, NodeList, Cond, LoopH, NODE, VNodeList, NODELIST, LVAR, BEXPR, COND, LVar, BExpr
 
+def _empty_only(a, k):
+    """set() - the model is the empty set; set(<something>) is another value"""
+    if a or k:
+        raise Unsupported("set(...) with arguments")
+    return None
+
+
 PROP = "C07"
 REL = "dagrt/codegen/transform.py"
 
@@ -161,7 +168,7 @@ class VarNameGenerator(FunctionContract):
         return VSet(NAMESET, r)
 
     names = property(lambda self: {
-        "set": VFunc("set", lambda ctx, it, a, k: ctx.alloc(VSet(NAMESET, empty()))),
+        "set": VFunc("set", lambda ctx, it, a, k: _empty_only(a, k) or ctx.alloc(VSet(NAMESET, empty()))),
         "get_names_in_ast_structure": VFunc("get_names_in_ast_structure", self.m_struct),
         "UniqueNameGenerator": VFunc("UniqueNameGenerator", lambda ctx, it, a, k: VGen7(ctx.deref(a[0]).t))})
 
